@@ -203,6 +203,34 @@ def oracle(ctx):
             res.oracle_failures.append(dict(op='fault-run', input=dict(failing_writes=n_write, conversion_errors=n_conv),
                                             impl_output=dict(exit=rc, errors_logged=len(e2e.error_lines(se))),
                                             oracle_expectation=f'{n_write} service files cannot be written (and {n_conv} units fail to convert): the exit status must be non-zero'))
+    # the whole output directory on a read-only file system (EROFS: the observation point "read-only mounts"), in a private mount namespace
+    from props import c14 as _c14
+    if _c14.ns_available():
+        import e2e as _e, shutil as _s, subprocess as _sp, tempfile as _t
+        for pre in ('empty', 'older-generation'):
+            res.oracle_evals += 1
+            base = _t.mkdtemp(prefix='qverif-ro-', dir='/tmp')
+            _e.write_tree(base, {'src/a.container': '[Container]\nImage=localhost/i\n[Install]\nWantedBy=default.target\n', 'src/b.volume': '[Volume]\n'})
+            out = os.path.join(base, 'out')
+            os.makedirs(out)
+            if pre == 'older-generation':
+                _e.run_binary(['--no-kmsg-log', out], os.path.join(base, 'src'))
+            before = _e.snapshot(out)
+            p = _sp.run(['unshare', '-m', 'sh', '-c', f'mount --bind {out} {out} && mount -o remount,ro,bind {out} && QUADLET_UNIT_DIRS={base}/src {core.BIN} --no-kmsg-log {out}'],
+                        capture_output=True, timeout=60)
+            se = p.stderr.decode('utf-8', 'replace')
+            after = _e.snapshot(out)
+            _s.rmtree(base, ignore_errors=True)
+            fails = []
+            if p.returncode != 1:
+                fails.append(f'exit status {p.returncode} although nothing can be written')
+            for svc in ('a.service', 'b-volume.service'):
+                if not any('ERROR' in l and svc in l for l in se.split('\n')):
+                    fails.append(f'no error names {svc}: {_e.error_lines(se)[:4]}')
+            if before != after:
+                fails.append('the read-only directory changed')
+            for f in fails:
+                res.oracle_failures.append(dict(op='fault-run', input=dict(fault='read-only output directory', output_directory=pre), impl_output=dict(exit=p.returncode, stderr=_e.error_lines(se)[:4]), oracle_expectation=f))
     # "it still writes the remaining services" — also those that *refer* to the unit whose service could not be written (the failure is
     # about a file, not about the unit: what the unit publishes in the run stays valid)
     import e2e as _e2e, shutil as _sh
